@@ -69,9 +69,7 @@ func runCase(c Case) (st stats, err error) {
 	}
 	seg := func(s string) io.Reader {
 		var r io.Reader = strings.NewReader(s)
-		if c.SegKind != 0 {
-			r = &xport.SegReader{R: r, Sched: xport.Sched(c.SegKind, c.Seg)}
-		}
+		r = xport.Segment(r, c.SegKind, c.Seg)
 		return r
 	}
 	// (1) decorated text through the library == undecorated text through the standard decoder
@@ -217,8 +215,8 @@ func TestDecorated(t *testing.T) {
 				c.Gaps = append(c.Gaps, genWS(t))
 			}
 		}
-		c.SegKind = rapid.IntRange(0, 2).Draw(t, "segk")
-		if c.SegKind == 2 {
+		c.SegKind = rapid.IntRange(0, xport.SegKinds-1).Draw(t, "segk")
+		if c.SegKind == 2 || c.SegKind == 3 {
 			c.Seg = rapid.SliceOfN(rapid.IntRange(1, 9), 1, 6).Draw(t, "seg")
 		}
 		var st stats
